@@ -101,6 +101,7 @@ class Ctx:
         self.t0 = time.time()
         self.clauses_run = []
         self._sample_next = 1
+        self.counted_nontrivial = 0  # distinct-by-construction cases of large enumerations
 
     # ---- sizes
     @property
@@ -131,6 +132,14 @@ class Ctx:
                 if len(self.hashes) >= self._sample_next and len(self.samples) < 6:
                     self.samples.append(short(case))
                     self._sample_next *= 8
+
+    def count_enumerated(self, evaluations, nontrivial, labels=()):
+        """Bulk bookkeeping for big enumerations whose cases are distinct by construction (no
+        per-case hashing)."""
+        self.evaluations += evaluations
+        self.counted_nontrivial += nontrivial
+        for lab in labels:
+            self.classes[lab] += evaluations
 
     def add_violation(self, clause, fail, case):
         sig = f'{clause}:{fail.sig or "oracle"}'
@@ -307,11 +316,13 @@ def partial_of(ctx):
     return {'evaluations': ctx.evaluations, 'hashes': sorted(ctx.hashes), 'samples': ctx.samples,
             'classes': dict(ctx.classes), 'excluded': dict(ctx.excluded),
             'inconclusive': dict(ctx.inconclusive), 'violations': ctx.violations,
-            'extra': ctx.extra, 'exhaustive': ctx.exhaustive, 'clauses': ctx.clauses_run}
+            'extra': ctx.extra, 'exhaustive': ctx.exhaustive, 'clauses': ctx.clauses_run,
+            'counted_nontrivial': ctx.counted_nontrivial}
 
 
 def merge_partial(ctx, part):
     ctx.evaluations += part['evaluations']
+    ctx.counted_nontrivial += part.get('counted_nontrivial', 0)
     ctx.hashes.update(part['hashes'])
     for s in part['samples']:
         if len(ctx.samples) < 6:
@@ -403,7 +414,8 @@ def finish(ctx, mod, write_evidence=True):
         lines.append(f'VIOLATION property={ctx.prop} replay={os.path.relpath(path, VERIF_DIR)}')
 
     if write_evidence:
-        cov = {'evaluations': ctx.evaluations, 'distinct_nontrivial': len(ctx.hashes),
+        cov = {'evaluations': ctx.evaluations,
+               'distinct_nontrivial': len(ctx.hashes) + ctx.counted_nontrivial,
                'rule': getattr(mod, 'RULE', ''), 'samples': ctx.samples,
                'classes': dict(ctx.classes.most_common(60)), 'clauses': ctx.clauses_run,
                'excluded': dict(ctx.excluded), 'inconclusive': dict(ctx.inconclusive),
@@ -424,7 +436,7 @@ def finish(ctx, mod, write_evidence=True):
     for line in lines:
         print(line, flush=True)
     print(f'{ctx.prop} {ctx.tier} seed={ctx.base_seed}: {ctx.evaluations} evaluations, '
-          f'{len(ctx.hashes)} distinct non-trivial, {len(new)} violation(s), '
+          f'{len(ctx.hashes) + ctx.counted_nontrivial} distinct non-trivial, {len(new)} violation(s), '
           f'{len(listed)} known finding(s), {round(time.time() - ctx.t0, 1)} s', flush=True)
     return 1 if new else 0
 
